@@ -80,7 +80,12 @@ def custom_bounds(chk, dprog, cfg):
         wc = unref(b.operand_term(ext[0][1]["args"][1]))
         if wc[0] == "var":
             ini = b.var_init(wc[1])
-            declared = len(ini) == 1 and any(x[0] == "field" and x[3] == "where_clause" and len(x) > 4 and x[4] == "syn::generics::Generics" for x in mir.walk(ini[0]))
+            # `generics.where_clause.clone().unwrap_or_else(empty)` or the same as a `match`: some initial value flows from generics.where_clause
+            declared = len(ini) >= 1 and any(x[0] == "field" and x[3] == "where_clause" and len(x) > 4 and x[4] == "syn::generics::Generics" for i_ in ini for x in mir.walk(i_))
+            if not declared:
+                declared = any(st_["k"] == "assign" and st_["rv"]["k"] in ("discr", "ref", "use") and any(isinstance(pr, dict) and pr.get("n") == "where_clause"
+                               for pr in (st_["rv"].get("place") or st_["rv"].get("op", {}).get("copy") or st_["rv"].get("op", {}).get("move") or {"p": []})["p"])
+                               for _, _, st_ in b.stmts())
             returned = any(is_mir_ok_of(b, wc))
             ok2 = declared and returned
             detail2 = "custom predicates are appended to a clause initialised from generics.where_clause: %s; that clause is what is returned: %s" % (declared, returned)
@@ -166,12 +171,17 @@ def relaxed(chk, dprog, cfg):
             if nm == "filter":
                 fcl, _ = mir.closure_of(ct[2][1])
                 fb = dprog.body(fcl) if fcl else None
-                if fb is not None:
-                    reads_modifier = any(x[0] == "field" and x[3] == "modifier" for bl in fb.blocks for tt in [bl["term"]] if tt["k"] == "switch"
-                                         for x in mir.walk(fb.operand_term(tt["discr"])))
+                if fb is None:
+                    f0 = unref(ct[2][1])
+                    if f0[0] == "fn" and f0[3] in dprog._bodies_raw:
+                        fb = dprog.body(f0[3])      # the predicate is a named function
+                for fp_ in (cd.closure_tree(dprog, fb.path) if fb is not None else []):
+                    fb_ = dprog.body(fp_)
+                    reads_modifier = any(x[0] == "field" and x[3] == "modifier" for bl in fb_.blocks for tt in [bl["term"]] if tt["k"] == "switch"
+                                         for x in mir.walk(fb_.operand_term(tt["discr"])))
                     if not reads_modifier:
                         reads_modifier = any(st["k"] == "assign" and st["rv"]["k"] == "discr" and any(isinstance(pr, dict) and pr.get("n") == "modifier" for pr in st["rv"]["place"]["p"])
-                                             for _, _, st in fb.stmts())
+                                             for _, _, st in fb_.stmts())
                     filtered = filtered or reads_modifier
         if copied is not None and not filtered:
             chk.fail("R13.2b", "relaxed-bound-copied", b.where(copied[0]), "the parameter's declared bounds are cloned wholesale into the where clause (%s): "
